@@ -141,6 +141,7 @@ CHECKS["C17"] = dict(
 ADDENDA = {
     "C04": "Each history is run twice: reading after every step and 'quiet' (reads only after the last step, every length 2..depth), because a read scrubs the stale copy it finds; the alphabet includes empty-metadata bulk load / overwrite / replace.",
     "C20": "A dedicated query-result-cache section enumerates all histories of depth 5 (6) over five distinct queries, boundary-crossing inserts, overwrite, delete and drain for capacity {1,2} x two metrics.",
+    "C05": "Compaction family: from a full index with a tombstone in slot 0, an insert of a new id (tombstone compaction renumbers internal ids) races reads / delete / overwrite / metadata update of id 1 in both thread orders with <= 2 preemptions. Server level: Query (with embedding) and BulkQuery through the real in-process gRPC handlers x four writer programs x three initial states, every schedule with <= 2 (3) preemptions: the vector and the metadata of one response belong to the same write.",
     "C06": "Alphabet includes bulk loads that bypass the recent-write tier. Because a search that meets a stale mirror scrubs it, each history is replayed on three more fresh engines whose queries (k=1000 first) go through one entry point only (first-touch pass).",
     "C07": "Histories start from the empty state and from two populated states. Part 4: the store-after-invalidate race — one searcher x one or two writers from populated states, every schedule with <= 2 (3) preemptions under the ksched scheduler; after join a repeated search served from the cache must be a valid fresh top-k of the engine's canonical store.",
     "C08": "The catalogue has 24 operations incl. delete-by-filter / ids_for_metadata_filter through the index path and through the reference-matcher scan fallback, and delete by closure.",
